@@ -613,7 +613,6 @@ class IteratorQueue(IterableQueue[_ValueT]):
         # Premeptively check if the queue is exhausted to avoid a second call.
         if self._queue.empty() and self.enqueue_done:
           self._set_exhausted()
-        return result
       except (queue.Empty, asyncio.QueueEmpty) as e:
         # No need to rasie from since these are the actual error.
         if self._exhausted:
@@ -630,6 +629,11 @@ class IteratorQueue(IterableQueue[_ValueT]):
         raise e
       finally:
         self._states_lock.release()
+      # A slot was freed: wakes a producer blocked on the full queue, also for
+      # a consumer that only polls with get_nowait().
+      with self._enqueue_lock:
+        self._enqueue_lock.notify()
+      return result
 
   def get_batch(
       self, max_batch_size: int = 0, *, block: bool = False
